@@ -552,10 +552,11 @@ def classify(exe, model, case, i, out, v, st2):
         return None
     # KF-STICKY-LEFT: the window is a true window (rows ok), the cursor line is in it, but the horizontal
     # offset is steered by the column remembered by j/k/^E/^Y, which lies beyond the cursor's character
-    if v == 'terminal cursor not on the cell of the cursor character' and is_sticky_atom(last):
+    if is_sticky_atom(last):
         pos, wid = cursor_cells(buf, xrow, xoff)
-        if out.get('left') is not None and pos + wid - 1 < out['left']:
-            return 'KF-STICKY-LEFT'
+        for top, left, _ in out['st'].get('matches', []):
+            if top <= xrow < top + h and out['st']['r'] == xrow - top and pos + wid - 1 < left:
+                return 'KF-STICKY-LEFT'
     # KF-EX-FAIL-NOREDRAW: the last command is an ex command line after which vi() did not repaint (ex_command() returned
     # non-zero, so mod stays 0) although the command printed on / read from the screen or changed the buffer before failing
     if last.startswith(b':') and last != b':w\n':
